@@ -689,7 +689,12 @@ func (srv *server) addMsgToQueueLocked(now time.Time, clientID string, msg *gmqt
 		},
 	})
 	if err != nil {
-		srv.clients[clientID].queueNotifier.notifyDropped(msg, &queue.InternalError{Err: err})
+		// the session may be offline: there is no client to take the notifier from
+		n := defaultNotifier(srv.hooks.OnMsgDropped, srv.statsManager, clientID)
+		if c := srv.clients[clientID]; c != nil {
+			n = c.queueNotifier
+		}
+		n.notifyDropped(msg, &queue.InternalError{Err: err})
 		return
 	}
 }
